@@ -91,6 +91,14 @@ def iban_parts(a):
     rs = IBAN.from_bban(o.country_code, str(o.bban), allow_invalid=a.get("ai", False))
     d["rebuilt_s"] = C(str(rs))
     d["reparse_fmt"] = C(str(IBAN(o.formatted, allow_invalid=a.get("ai", False))))
+    if not a.get("ai", False):
+        try:
+            sz, c = o.in_sepa_zone, o.country
+            d["info"] = {"k": "ok", "numeric": C(str(o.numeric)), "sepa": bool(sz), "sepat": type(sz).__name__,
+                         "country": C(c.alpha_2) if c is not None else [], "spec_len": o.spec["iban_length"],
+                         "spec_blen": o.spec["bban_length"]}
+        except Exception as e:  # noqa: BLE001
+            d["info"] = {"k": "exc", "cls": type(e).__name__}
     return d
 
 
